@@ -48,10 +48,12 @@ PROPS = {
     "C01": mk(["u1"], T_SIGNAL, [R1, R2, R3, A1, A5], "conservation + ownership contracts on every critical section; effect log of hand-offs"),
     "C02": mk(["u1"], T_SIGNAL, [R1, R2, R3, A1, A5], "every send-type section appends at the tail of the logical order, every receive-type section takes its head"),
     "C03": mk(["u1"], T_SIGNAL, [R1, R2, R3, A1, A5], "every entry point ensures one atomic reference step per critical section; lock invariant at every guard death"),
+    "C05": mk(["u1"], T_SIGNAL, [R1, R2, R3, A1, A5], "MaybeUninit typestate + scope-exit obligations on every lent slot + Option post-conditions"),
     "C08": mk(["u1"], T_SIGNAL, [R1, R2, R3, A1, A2, A5], "len <= capacity is part of the lock invariant; admission post-conditions"),
     "C10": mk(["u1"], T_SIGNAL, [R1, R2, R3, A1, A5], "close contract; closed is absorbing on every entry point"),
     "C11": mk(["u1"], T_SIGNAL, [R1, R2, R3, A1, A5], "Drop contracts; drain before SendClosed"),
     "C12": mk(["u1"], [], [R1, A1, A3, A5], "+-1 contracts on every clone/drop/convert; conversions are transmutes (shape check)"),
+    "C13": mk(["u1"], T_SIGNAL + T_TIME, [R1, R2, R3, A1, A4, A5], "timed operations: two critical sections, timeout only after a successful cancel under the lock, not before the deadline (clock token)"),
     "C14": mk(["u1"], T_SIGNAL, [R1, R2, A1, A5], "blocking-effect tokens in requires; total correctness of the non-blocking entry points"),
     "C18": mk(["u1"], T_SIGNAL + T_TIME, [R1, R2, R3, A1, A2, A3, A4, A5], "each entry point equals a deterministic reference function; panic- and overflow-freedom"),
 }
